@@ -287,3 +287,254 @@ Proof.
   - rewrite (A S c v R1 HS Ho H1), (A S c v R2 HS Ho H2). reflexivity.
   - rewrite (B Hn R1 H1), (B Hn R2 H2). reflexivity.
 Qed.
+
+(** * node death *)
+
+(** [dead_node_clients_removed]: when node [d] is marked invalid on [R], every instance held
+    under a client of [d] disappears from [R], and nothing else changes *)
+Theorem dead_node_clients_removed : forall R d k,
+  d <> sn_id R -> wf_recv R ->
+  aget k (sn_reg (fst (mark_dead R d))) =
+  match aget k (sn_reg R) with
+  | Some o => if fst (si_client o) =? d then None else Some o
+  | None => None
+  end.
+Proof.
+  intros R d k Hne [WR1 WR2]. unfold mark_dead.
+  destruct (reg_remove_clients (sn_reg R) (peers_of d (sn_peers R))) as [r1 ns] eqn:E. cbn [fst sn_reg].
+  replace r1 with (fst (reg_remove_clients (sn_reg R) (peers_of d (sn_peers R)))) by (rewrite E; reflexivity).
+  rewrite aget_reg_remove_clients. destruct (aget k (sn_reg R)) as [o|] eqn:Go; [|reflexivity].
+  destruct (fst (si_client o) =? d) eqn:Ed.
+  - apply N.eqb_eq in Ed. destruct (WR1 k o Go) as [_ Hp]; [congruence|].
+    apply peers_has_In in Hp. rewrite Ed in Hp. apply peers_of_In, cid_mem_In in Hp. rewrite Hp. reflexivity.
+  - destruct (cid_mem (si_client o) (peers_of d (sn_peers R))) eqn:M; [|reflexivity].
+    apply cid_mem_In, peers_of_In, WR2 in M. apply N.eqb_neq in Ed. contradiction.
+Qed.
+
+Corollary dead_node_view_empty : forall R d k,
+  d <> sn_id R -> wf_recv R -> held_for d (fst (mark_dead R d)) k = None.
+Proof.
+  intros R d k Hne WR. unfold held_for. rewrite (dead_node_clients_removed R d k Hne WR).
+  destruct (aget k (sn_reg R)) as [o|]; [|reflexivity].
+  destruct (fst (si_client o) =? d) eqn:E; [reflexivity|]. rewrite E. reflexivity.
+Qed.
+
+(** the client ids of the dead node are forgotten *)
+Lemma dead_node_peers_cleared : forall R d, peers_of d (sn_peers (fst (mark_dead R d))) = [].
+Proof.
+  intros R d. unfold mark_dead. destruct (reg_remove_clients (sn_reg R) (peers_of d (sn_peers R))).
+  cbn [fst sn_peers]. unfold peers_of, peers_clear. induction (sn_peers R) as [|p ps IH]; [reflexivity|].
+  cbn [filter]. destruct (fst p =? d) eqn:E; cbn [negb]; [exact IH|]. cbn [filter]. rewrite E. exact IH.
+Qed.
+
+(** * (re)join *)
+
+(** what the joining node [J] holds after asking [S] for its snapshot (QuerySnapshot -> Snapshot) *)
+Definition join_pull (J S : snode) : snode :=
+  let '(_, resp, _) := recv S (sn_id J) MQuerySnapshot in
+  match resp with
+  | [m] => let '(J', _, _) := recv J (sn_id S) m in J'
+  | _ => J
+  end.
+
+(** [rejoin_receives_snapshot]: whatever [J] held before (in particular nothing, after a restart),
+    after the snapshot of [S] it holds every instance [S] registers through its own clients,
+    attributed to [S], and knows the client id for [S] *)
+Theorem rejoin_receives_snapshot : forall J S k c v,
+  sn_id S <> 0 -> wf_own S -> own S k = Some (c, v) ->
+  aget k (sn_reg (join_pull J S)) = Some (mkInst v (sn_id S) c) /\
+  peers_has (sn_id S) c (sn_peers (join_pull J S)) = true.
+Proof.
+  intros J S k c v Hnz WS Ho. unfold join_pull. cbn [recv sn_id sn_reg sn_peers].
+  apply own_Some in Ho. destruct Ho as [i [Gi [Hc [Hv Hid]]]].
+  assert (Hfrom : si_from i = 0) by (apply (WS k i Gi); congruence).
+  assert (Hin : In (k, i) (build_snapshot (sn_reg S))).
+  { unfold build_snapshot. apply build_distro_In. split; [eapply aget_In_keys; eassumption|tauto]. }
+  assert (Hres : reset_from (sn_id S) i = mkInst v (sn_id S) c).
+  { unfold reset_from. rewrite Hfrom. cbn [N.eqb]. subst. reflexivity. }
+  split.
+  - rewrite aget_reg_receive. unfold build_snapshot. rewrite last_bind_build.
+    assert (M : memb k (map fst (sn_reg S)) = true) by (apply memb_In; eapply aget_In_keys; eassumption).
+    rewrite M, Gi, Hfrom. cbn [N.eqb]. rewrite Hres. reflexivity.
+  - apply peers_has_In, peers_add_In. left. exists c. split; [|reflexivity].
+    unfold clients_from. apply in_map_iff. exists (k, mkInst v (sn_id S) c). split; [reflexivity|].
+    apply filter_In. split; [|cbn [snd si_from]; apply N.eqb_refl].
+    unfold reset_all. apply in_map_iff. exists (k, i). split; [cbn [fst snd]; rewrite Hres; reflexivity|exact Hin].
+Qed.
+
+(** * applying a batch *)
+
+(** an update entry of a batch with distinct keys is what the receiver stores, attributed to the
+    sender; a removal entry removes the receiver's instance when it is held under the same client
+    and is refused otherwise (a re-registration by another client survives a delayed removal) *)
+Theorem batch_apply : forall R s upd rem k,
+  NoDup (map fst upd) ->
+  let R' := fst (fst (recv R s (MBatch upd rem))) in
+  (forall i, In (k, i) upd -> aget k (sn_reg R') = Some (reset_from s i)) /\
+  (~ In k (map fst upd) ->
+     aget k (sn_reg R') =
+     match aget k (sn_reg R) with
+     | Some o => if existsb (fun p => (fst p =? k) && cid_eqb (si_client o) (si_client (snd p))) rem
+                 then None else Some o
+     | None => None
+     end).
+Proof.
+  intros R s upd rem k ND R'. unfold R'. cbn [recv].
+  destruct (reg_delete_batch (sn_reg R) rem) as [r1 ns] eqn:E. cbn [fst sn_reg].
+  replace r1 with (fst (reg_delete_batch (sn_reg R) rem)) by (rewrite E; reflexivity).
+  rewrite aget_reg_receive. split.
+  - intros i Hin.
+    assert (L : last_bind k (reset_all s upd) = Some (reset_from s i)).
+    { clear -ND Hin. unfold reset_all. induction upd as [|[k' i'] l IH]; [contradiction|].
+      cbn [map fst] in ND. inversion ND as [|? ? Hn ND']; subst. cbn [map last_bind fst snd].
+      destruct Hin as [Hin|Hin].
+      - inversion Hin; subst.
+        assert (Ln : last_bind k (map (fun p => (fst p, reset_from s (snd p))) l) = None).
+        { clear -Hn. induction l as [|[k2 i2] l IH]; [reflexivity|]. cbn [map last_bind fst snd].
+          cbn [map fst In] in Hn. rewrite IH by tauto. destruct (k2 =? k) eqn:E; [|reflexivity].
+          apply N.eqb_eq in E. tauto. }
+        rewrite Ln, N.eqb_refl. reflexivity.
+      - rewrite (IH ND' Hin). reflexivity. }
+    rewrite L. reflexivity.
+  - intros Hn.
+    assert (L : last_bind k (reset_all s upd) = None).
+    { clear -Hn. unfold reset_all. induction upd as [|[k2 i2] l IH]; [reflexivity|]. cbn [map last_bind fst snd].
+      cbn [map fst In] in Hn. rewrite IH by tauto. destruct (k2 =? k) eqn:E; [|reflexivity].
+      apply N.eqb_eq in E. tauto. }
+    rewrite L. apply aget_reg_delete_batch.
+Qed.
+
+(** * non-vacuity: a concrete quiescent 3-node cluster in which the round changes something *)
+
+(** node 1 registers keys 10 (client 1_1) and 11 (client 1_2); node 2 registers key 20; node 3
+    nothing.  Node 2 misses key 11 and still holds key 12 under the closed client 1_2; node 3
+    holds nothing of node 1 and a stale key 21 of node 2 under a client node 2 still lists. *)
+Definition ex_n1 : snode :=
+  mkNode 1 [(10, mkInst 1 0 (1, 1)); (11, mkInst 2 0 (1, 2)); (20, mkInst 5 2 (2, 1))] [(2, (2, 1))].
+Definition ex_n2 : snode :=
+  mkNode 2 [(20, mkInst 5 0 (2, 1)); (10, mkInst 1 1 (1, 1)); (12, mkInst 9 1 (1, 2))]
+           [(1, (1, 1)); (1, (1, 2))].
+Definition ex_n3 : snode :=
+  mkNode 3 [(21, mkInst 7 2 (2, 1))] [(2, (2, 1))].
+Definition ex_cluster : list snode := [ex_n1; ex_n2; ex_n3].
+
+Definition wf_ownb (S : snode) : bool :=
+  forallb (fun p => negb (fst (si_client (snd p)) =? sn_id S) || (si_from (snd p) =? 0)) (sn_reg S).
+
+Lemma aget_In : forall k r i, aget k r = Some i -> In (k, i) r.
+Proof.
+  induction r as [|[k' j] r IH]; cbn [aget In]; intros i H; [discriminate|].
+  destruct (k' =? k) eqn:E; [apply N.eqb_eq in E; inversion H; subst; left; reflexivity|right; apply IH; exact H].
+Qed.
+
+Lemma wf_ownb_sound : forall S, wf_ownb S = true -> wf_own S.
+Proof.
+  intros S H k i G Hid. unfold wf_ownb in H. rewrite forallb_forall in H. specialize (H (k, i) (aget_In _ _ _ G)).
+  cbn [snd] in H. apply orb_true_iff in H. destruct H as [H|H].
+  - apply negb_true_iff, N.eqb_neq in H. contradiction.
+  - apply N.eqb_eq. exact H.
+Qed.
+
+Definition wf_recvb (R : snode) : bool :=
+  forallb (fun p => (fst (si_client (snd p)) =? sn_id R) ||
+                    ((si_from (snd p) =? fst (si_client (snd p))) &&
+                     peers_has (fst (si_client (snd p))) (si_client (snd p)) (sn_peers R))) (sn_reg R) &&
+  forallb (fun x => fst (snd x) =? fst x) (sn_peers R).
+
+Lemma wf_recvb_sound : forall R, wf_recvb R = true -> wf_recv R.
+Proof.
+  intros R H. unfold wf_recvb in H. apply andb_true_iff in H. destruct H as [H1 H2].
+  rewrite forallb_forall in H1, H2. split.
+  - intros k i G Hc. specialize (H1 (k, i) (aget_In _ _ _ G)). cbn [snd] in H1.
+    apply orb_true_iff in H1. destruct H1 as [H1|H1]; [apply N.eqb_eq in H1; contradiction|].
+    apply andb_true_iff in H1. destruct H1 as [Hf Hp]. apply N.eqb_eq in Hf. tauto.
+  - intros s c Hin. specialize (H2 (s, c) Hin). cbn [fst snd] in H2. apply N.eqb_eq. exact H2.
+Qed.
+
+Example ex_cluster_hyps :
+  NoDup (map sn_id ex_cluster) /\
+  (forall n, In n ex_cluster -> sn_id n <> 0 /\ wf_own n /\ wf_recv n) /\
+  map (fun R => map (gview R) [10; 11; 12; 20; 21]) ex_cluster <>
+  map (fun R => map (gview (exchange_all (others ex_cluster R) R)) [10; 11; 12; 20; 21]) ex_cluster.
+Proof.
+  split; [repeat constructor; cbn; intuition discriminate|]. split.
+  - intros n [H|[H|[H|[]]]]; subst n; (split; [discriminate|]);
+      (split; [apply wf_ownb_sound; reflexivity|apply wf_recvb_sound; reflexivity]).
+  - vm_compute. discriminate.
+Qed.
+
+(** the outcome of the round on the concrete cluster: all three nodes answer the same *)
+Example ex_cluster_converges :
+  map (fun R => map (gview (exchange_all (others ex_cluster R) R)) [10; 11; 12; 20; 21]) ex_cluster =
+  let row := [Some (1, (1, 1), 1); Some (1, (1, 2), 2); None; Some (2, (2, 1), 5); None] in
+  [row; row; row].
+Proof. vm_compute. reflexivity. Qed.
+
+(** the dead-node and rejoin theorems on concrete states *)
+Example ex_dead_and_rejoin :
+  map (gview (fst (mark_dead ex_n2 1))) [10; 12; 20] = [None; None; Some (2, (2, 1), 5)] /\
+  map (gview (join_pull (mkNode 3 [] []) ex_n1)) [10; 11; 20] =
+    [Some (1, (1, 1), 1); Some (1, (1, 2), 2); None].
+Proof. vm_compute. split; reflexivity. Qed.
+
+(** last-op-wins on a concrete notification sequence: update, remove, update of key 4; remove of
+    key 5; the batch carries the last update of 4 and the removal of 5 *)
+Example ex_batch :
+  fst (delay_flush (delay_notify_all []
+        [(4, (mkInst 1 0 (1, 1), true)); (5, (mkInst 2 0 (1, 1), true)); (4, (mkInst 1 0 (1, 1), false));
+         (4, (mkInst 3 0 (1, 1), true)); (5, (mkInst 2 0 (1, 1), false))])) =
+  Some (MBatch [(4, mkInst 3 0 (1, 1))] [(5, mkInst 2 0 (1, 1))]).
+Proof. vm_compute. reflexivity. Qed.
+
+(** boolean forms of the remaining hypotheses of [quiescent_fixpoint], to show that the concrete
+    cluster satisfies ALL of them *)
+Definition vals_syncedb (S R : snode) : bool :=
+  forallb (fun p => match own S (fst p), held_for (sn_id S) R (fst p) with
+                    | Some (c, v), Some (c', v') => negb (cid_eqb c c') || (v =? v')
+                    | _, _ => true
+                    end) (sn_reg S).
+
+Lemma vals_syncedb_sound : forall S R, vals_syncedb S R = true -> vals_synced S R.
+Proof.
+  intros S R H k c v v' Ho Hh. unfold vals_syncedb in H. rewrite forallb_forall in H.
+  pose proof Ho as Ho'. apply own_Some in Ho'. destruct Ho' as [i [Gi _]].
+  specialize (H (k, i) (aget_In _ _ _ Gi)). cbn [fst] in H. rewrite Ho, Hh, cid_eqb_refl in H.
+  cbn [negb orb] in H. apply N.eqb_eq. exact H.
+Qed.
+
+Definition disjoint_ownb (S1 S2 : snode) : bool :=
+  forallb (fun p => match own S1 (fst p), own S2 (fst p) with Some _, Some _ => false | _, _ => true end)
+          (sn_reg S1).
+
+Lemma disjoint_ownb_sound : forall S1 S2 k,
+  disjoint_ownb S1 S2 = true -> own S1 k <> None -> own S2 k <> None -> False.
+Proof.
+  intros S1 S2 k H H1 H2. unfold disjoint_ownb in H. rewrite forallb_forall in H.
+  destruct (own S1 k) as [[c v]|] eqn:E1; [|congruence]. pose proof E1 as E1'. apply own_Some in E1'.
+  destruct E1' as [i [Gi _]]. specialize (H (k, i) (aget_In _ _ _ Gi)). cbn [fst] in H. rewrite E1 in H.
+  destruct (own S2 k); [discriminate|congruence].
+Qed.
+
+Definition liveb_all (ns : list snode) (R : snode) : bool :=
+  forallb (fun p => existsb (fun S => sn_id S =? fst (si_client (snd p))) ns) (sn_reg R).
+
+Lemma liveb_all_sound : forall ns R k i,
+  liveb_all ns R = true -> aget k (sn_reg R) = Some i -> exists S, In S ns /\ sn_id S = fst (si_client i).
+Proof.
+  intros ns R k i H G. unfold liveb_all in H. rewrite forallb_forall in H.
+  specialize (H (k, i) (aget_In _ _ _ G)). cbn [snd] in H. apply existsb_exists in H.
+  destruct H as [S [HS E]]. exists S. split; [exact HS|apply N.eqb_eq; exact E].
+Qed.
+
+Example ex_cluster_all_hyps :
+  (forall S R, In S ex_cluster -> In R ex_cluster -> sn_id S <> sn_id R -> vals_synced S R) /\
+  (forall S1 S2 k, In S1 ex_cluster -> In S2 ex_cluster -> own S1 k <> None -> own S2 k <> None -> S1 = S2) /\
+  (forall R k i, In R ex_cluster -> aget k (sn_reg R) = Some i ->
+                 exists S, In S ex_cluster /\ sn_id S = fst (si_client i)).
+Proof.
+  split; [|split].
+  - intros S R [HS|[HS|[HS|[]]]] [HR|[HR|[HR|[]]]] _; subst S R; apply vals_syncedb_sound; reflexivity.
+  - intros S1 S2 k [H1|[H1|[H1|[]]]] [H2|[H2|[H2|[]]]] O1 O2; subst S1 S2; try reflexivity;
+      exfalso; refine (disjoint_ownb_sound _ _ k _ O1 O2); reflexivity.
+  - intros R k i [HR|[HR|[HR|[]]]] G; subst R; eapply liveb_all_sound; try eassumption; reflexivity.
+Qed.
